@@ -89,6 +89,19 @@ Theorem C16_cache_bounded : forall cs s,
 Proof. exact parse_cache_bounded. Qed.
 Print Assumptions C16_cache_bounded.
 
+(* functools.cached_property on the shared AST nodes (LocationStep._anders_predicates, ._derived_attributes,
+   XPathExpression._is_unambiguously_locatable): the list is the one in the source, the node fields they are
+   computed from are assigned in __init__ only (generator), and then every read, after any earlier reads,
+   gives what a fresh computation gives *)
+Theorem C16_cached_properties : cached_properties = expected_cached_properties.
+Proof. exact cached_properties_as_modelled. Qed.
+Print Assumptions C16_cached_properties.
+
+Theorem C16_cached_property_transparent : forall (V : Type) (f : nat -> V) reads k,
+  snd (memo_read f (memo_run f reads) k) = f k.
+Proof. exact @memo_transparent. Qed.
+Print Assumptions C16_cached_property_transparent.
+
 (* ---- regression: the inputs of the nine repaired findings are rejected now ---- *)
 Theorem C16_regression :
   parse [97; 47]%N = ORej 0 msg_parse_location_step_0 false   (* a/ *) /\
